@@ -607,11 +607,19 @@ def rule_empty_accumulation(repo, col):
                         for st in blk[:blk.index(cur)]:
                             if isinstance(st, ast.If) and any(
                                     isinstance(x, ast.Name) and x.id == name
-                                    for x in ast.walk(st.test)) and \
-                                    st.body and isinstance(
+                                    for x in ast.walk(st.test)):
+                                # leaves on emptiness, or replaces the empty
+                                # list by something that carries a shape
+                                if st.body and isinstance(
                                         st.body[-1], (ast.Raise,
                                                       ast.Return)):
-                                guarded = True
+                                    guarded = True
+                                if any(isinstance(x, ast.Assign) and any(
+                                        isinstance(t, ast.Name) and
+                                        t.id == name for t in x.targets)
+                                        for b in st.body + st.orelse
+                                        for x in ast.walk(b)):
+                                    guarded = True
                 cur = p
             col.check(guarded, rule, TABLE, q, 'convert:%s' % name, n,
                       'an empty accumulation is handled separately',
